@@ -9,8 +9,13 @@ FAMILIES = ("transform",)
 
 
 def scrub(x):
-    """drop error message texts (they carry random operator-node ULIDs) and timings"""
+    """drop error message texts (they carry random operator-node ULIDs) and timings; of a failed weighted-graph build keep
+    the verdict only: which of the three error classes a rejected model gets depends on Go's map order even between two
+    sequential builds (seen under seed 47: a model inside K-C04-operands, 40 x cycle and 20 x invalid in 60 fresh builds),
+    so a difference there says nothing about history or concurrency; a panic (class 8) stays visible"""
     if isinstance(x, dict):
+        if x.get("ok") == 0 and "has_graph" in x and x.get("class") != 8:
+            x = dict(x, **{"class": "rejected"})
         return {k: scrub(v) for k, v in x.items() if k not in ("msg", "ms", "stack")}
     if isinstance(x, list):
         return [scrub(v) for v in x]
